@@ -93,6 +93,10 @@ def render_seg(seg, sep, style="bs"):
         return "[%s%s(%s)]" % ("!" if inv else "", name, ptxt), False
     if kind == "coll":
         _, op, inner = seg
+        if style == "rel":
+            # the inner path keeps dot notation whatever the outer one is (as
+            # the canonical string of a dot-notated collector does)
+            return "%s(%s)" % (op, render(inner, ".", "q", inner=True)), False
         return "%s(%s)" % (op, render(inner, sep, style, inner=True)), False
     raise ValueError(seg)
 
@@ -103,6 +107,10 @@ def render(segs, sep, style="bs", inner=False):
     first = True
     for seg in segs:
         text, keyish = render_seg(seg, sep, style)
+        if first and seg[0] == "anchor" and style not in ("bs", "rel"):
+            # the other documented spelling: a path (or a collector's inner
+            # path) may open with a bare &anchor
+            text, keyish = "&%s" % esc_bs(seg[1], sep), True
         if sep == "/":
             if keyish or first:
                 out += "/" + text
